@@ -293,6 +293,7 @@ func runC12(c *Ctx) {
 		}
 	}
 	c.floor("C12.4", "stores to InjectorParam.name/channelName", nStores, 2)
+	ruleImportNamesFromPool(c, "C12.6")
 }
 
 // c12Registration: ParseFile's pre-registration walks.
